@@ -317,8 +317,14 @@ def gen_base(prop, seed, tier):
     kind = _w(r, [('cpa', 3), ('dpa', 2), ('anova', 1.5), ('nicv', 1.2), ('snr', 1.2), ('mia', 1.5)])
     mode = 'attack' if prop == 'C08' else r.choice(['attack', 'reverse'])
     m = r.randint(2, 6)
+    big = rng.stream(seed, 'bigpipe')
+    isbig = big.random() < 0.04
+    if isbig:
+        m = big.randint(8, 16)          # longer traces
     nruns = r.choice([1, 1, 2, 3])
     sets = [_w(r, [(r.randint(1, 12), 2), (r.randint(13, 60), 4), (r.randint(61, 120), 1)]) for _ in range(nruns)]
+    if isbig:
+        sets = [big.randint(150, 600) for _ in range(nruns)]      # containers of several hundred traces, batches of a hundred and more
     frame = r.choice([None, None, ['ellipsis'], ['slice', 1, None, None], ['slice', 0, m - 1, None], ['list', [0, m - 1]],
                       ['list', [m - 1, 0]], ['range', 0, m, 2], ['ndarray', [1, 0]], ['slice', 0, None, 2]])
     fr2 = rng.stream(seed, 'frame2')
@@ -342,6 +348,8 @@ def gen_base(prop, seed, tier):
     rule = _w(r, [(r.randint(1, 6), 3), (r.randint(7, 30), 3), (r.choice([nmax, nmax + 5, max(1, nmax - 1), max(1, nmax // 2)]), 2),
                   (r.choice([1e-5, 5e-5, 1e-4, 3e-4]), 1.5),
                   (r.choice([[[0, 4], [3, 6], [10, 9]], [[0, 3], [2, 7]], [[0, 50], [4, 5], [6, 2]], [[0, 1], [100, 3]]]), 1.5)])
+    if isbig:
+        rule = big.choice([100, 128, 250, 256, 512, 1000, 3e-3, [[0, 64], [300, 200]]])
     c2 = rng.stream(seed, 'chain2')
     if c2.random() < 0.15:
         # the same callable twice, callables sharing a name (closures of one factory, instances of one Preprocess class), chains of four
